@@ -1147,17 +1147,47 @@ func init() {
 	})
 }
 
-// c18LeftBehind: a goroutine started by MultiSource.processDependency that exists although no run is under way.
+// c18LeftBehind: a goroutine started by MultiSource.processDependency that is still there, BLOCKED, although no run is
+// under way. A goroutine that is just returning (its wait group has been released, its last deferred call is running)
+// is runnable, not blocked, and gone a moment later: only one that is seen blocked in every one of several looks
+// counts.
 func c18LeftBehind() string {
-	buf := make([]byte, 1<<20)
-	n := runtime.Stack(buf, true)
-	for _, g := range strings.Split(string(buf[:n]), "\n\n") {
-		if strings.Contains(g, "MultiSource).processDependency") {
+	look := func() (string, bool) {
+		buf := make([]byte, 1<<20)
+		n := runtime.Stack(buf, true)
+		for _, g := range strings.Split(string(buf[:n]), "\n\n") {
+			if !strings.Contains(g, "MultiSource).processDependency") {
+				continue
+			}
+			head := g
+			if i := strings.Index(g, "\n"); i > 0 {
+				head = g[:i]
+			}
+			blocked := strings.Contains(head, "[chan send") || strings.Contains(head, "[chan receive") || strings.Contains(head, "[select")
 			if len(g) > 600 {
 				g = g[:600]
 			}
-			return g
+			return g, blocked
 		}
+		return "", false
+	}
+	seenBlocked := 0
+	last := ""
+	for i := 0; i < 150; i++ {
+		g, blocked := look()
+		if g == "" {
+			return ""
+		}
+		if blocked {
+			seenBlocked++
+			last = g
+			if seenBlocked >= 5 {
+				return last
+			}
+		} else {
+			seenBlocked = 0
+		}
+		time.Sleep(20 * time.Millisecond)
 	}
 	return ""
 }
